@@ -30,10 +30,11 @@ fn setup(ctx: &mut Ctx) {
     ctx.floor("header-lies:size-or-count>=2^31", 200);
     ctx.floor("padded-files", 20);
     ctx.floor("open:read-total-checked", 300);
+    ctx.floor("faulty-reader:retries-after-failed-call", 200);
 }
 
 fn strata(t: Tier) -> Vec<Stratum> {
-    vec![st("generated+lying-headers", scale(t, 800_000, 8_000_000, 4)), st("huge-padding", scale(t, 12_000, 120_000, 0)), st("random-with-ident", scale(t, 240_000, 2_400_000, 2))]
+    vec![st("generated+lying-headers", scale(t, 800_000, 8_000_000, 4)), st("huge-padding", scale(t, 12_000, 120_000, 0)), st("random-with-ident", scale(t, 240_000, 2_400_000, 2)), st("faulty-reader-retries", scale(t, 200_000, 2_000_000, 2))]
 }
 
 pub fn alloc_bound(stream_len: usize) -> u64 {
@@ -209,6 +210,11 @@ fn check_alloc(ctx: &mut Ctx, rep: &alloc::AllocReport, bound: u64, len: usize, 
 }
 
 pub fn judge_file(ctx: &mut Ctx, data: &[u8], what: &str, policy: Policy, check_lazy: bool) {
+    judge_file_opt(ctx, data, what, policy, check_lazy, false)
+}
+
+/// `retry`: every query is issued twice in a row (a caller retrying after a transient failure).
+pub fn judge_file_opt(ctx: &mut Ctx, data: &[u8], what: &str, policy: Policy, check_lazy: bool, retry: bool) {
     ctx.count("files");
     ctx.set_input(data);
     ctx.mark_progress("stream-history");
@@ -248,14 +254,20 @@ pub fn judge_file(ctx: &mut Ctx, data: &[u8], what: &str, policy: Policy, check_
     };
     let names = name_queries(&r, &mut ctx.rng, 4);
     let pool = smart_pool(&r, &names, &mut ctx.rng, true);
-    let hist = gen_history(&mut ctx.rng, &pool, 24);
+    let mut hist = gen_history(&mut ctx.rng, &pool, 24);
+    if retry {
+        hist = hist.into_iter().flat_map(|q| [q.clone(), q]).collect();
+    }
     ctx.nontrivial(crate::rng::mix(crate::rng::fnv64(data), hist.len() as u64));
     ctx.sample(|| format!("{what} ({} bytes) history {:?}", len, hist.iter().take(8).collect::<Vec<_>>()));
     for (i, q) in hist.iter().enumerate() {
         ctx.eval();
         let api = i as u32 + 1;
         let mut w = Window { h: &handle, api, bound, report: None };
-        let _ = obs_stream(&mut stream, q, &mut w);
+        let o = obs_stream(&mut stream, q, &mut w);
+        if retry && o.is_err() && i % 2 == 0 {
+            ctx.count("faulty-reader:retries-after-failed-call");
+        }
         // a call cut before `after` (error before the crate call) leaves nothing armed
         let rep = w.report.unwrap_or_else(alloc::disarm);
         if !check_alloc(ctx, &rep, bound, len, what, q.label()) {
@@ -316,10 +328,25 @@ fn run(ctx: &mut Ctx, si: usize, _case: u64) {
             ctx.count("padded-files");
             judge_file(ctx, &b.bytes, &format!("generated {} with gaps up to {} bytes between parts", enc.name(), spec.max_gap), Policy::default(), true);
         }
-        _ => {
+        2 => {
             let l = ctx.rng.usize_below(300);
             let bytes = mutate::random_with_ident(&mut ctx.rng, enc, l);
             judge_file(ctx, &bytes, &format!("random bytes behind a valid {} ident", enc.name()), Policy::default(), true);
+        }
+        _ => {
+            // a reader that delivers short reads and fails transiently now and then; every query is retried
+            // once: the retry must again read only inside the query's own ranges
+            let mut o = GenOpts::standard();
+            o.max_syms = 6;
+            o.weird_views = false;
+            let (spec, _) = gen_object(&mut ctx.rng, enc, &o);
+            let b = build(&spec, &mut ctx.rng);
+            let nf = 1 + ctx.rng.usize_below(4);
+            let faults = (0..nf)
+                .map(|_| crate::monitor::io::Fault { at_call: 4 + ctx.rng.below(400) as u32, kind: crate::monitor::io::FaultKind::Error, permanent: false })
+                .collect();
+            let policy = Policy { max_chunk: [8usize, 16, 48][ctx.rng.usize_below(3)], interrupt_per_256: 0, faults };
+            judge_file_opt(ctx, &b.bytes, &format!("generated {} behind a short-reading reader with {nf} transient faults", enc.name()), policy, true, true);
         }
     }
 }
